@@ -1,5 +1,5 @@
 """Texts for MANIFEST.json."""
-HOOK_COMMITS = ["3a899bd", "d84b5a0"]
+HOOK_COMMITS = ["3a899bd", "d84b5a0", "f4cc99e"]
 
 NOTES = ("All checks: ./check <id> --tier quick|thorough. Technique family: machine-checked proof in Lean 4 over executable models, "
          "tied to the source by a per-run correspondence (see DESIGN.md). Properties listed under not_applicable are not yet "
@@ -9,6 +9,18 @@ _PENDING = "no registered check yet at this commit (model and correspondence und
 NOT_APPLICABLE = {f"C{i:02d}": _PENDING for i in range(1, 21)}
 
 META = {
+    "C05": {
+        "text": ("Lean refinement proof over the snapshot algebra (segments with obsoleted numbers; introduction = obsolete + drop empty "
+                 "+ append; merge = replace segments by one holding their live documents): for every history, lookups after any "
+                 "sequence of introductions and merges equal the last-write-wins replay of the batches, the invariant holds, and two "
+                 "runs with the same batches and any different merges answer identically (layout independence); inserting a merge "
+                 "anywhere changes nothing. Every real root swap is replayed on the model (hook), and seven physical layouts of the "
+                 "same history are compared bit for bit on random requests."),
+        "design_ref": "DESIGN.md section 4, C05",
+        "note": ("trusted: Lean kernel, Go harness, the verif hook dump, zapx merge/persist. Scoring is compared, not modelled. Two "
+                 "score deviations of the unchanged tree are known findings."),
+        "technique": "Lean 4 refinement proof (snapshot algebra) + per-step replay of real introducer transitions + metamorphic layout comparison",
+    },
     "C20": {
         "text": ("The statement is a Lean function (eval nested q doc: same-element evaluation for conjunctions whose leaves all "
                  "address one nested array, per-parent combination otherwise, per-clause existential without nesting). Theorems for "
